@@ -168,13 +168,13 @@ func reharvest(repo, extName, root, rel, content string) (*harvester, func()) {
 	return h, cleanup
 }
 
-// reharvestDir runs one named extractor on one file in place (root directory of the repository fixture).
+// reharvestDir runs one named extractor on one file of a private copy of the fixture's root directory.
 func reharvestDir(repo, extName, root, rel string) (*harvester, func()) {
 	h := &harvester{emptied: map[string]bool{}, repo: repo, perExtractor: map[string]int{}}
 	for _, e := range offlineExtractors() {
 		if e.Name() == extName {
 			h.only = rel
-			h.run(root, []filesystem.Extractor{&wrapExt{inner: e, always: true, h: h}}, 60*time.Second)
+			h.runCopy(root, []filesystem.Extractor{&wrapExt{inner: e, always: true, h: h}}, 60*time.Second)
 		}
 	}
 	return h, func() {}
